@@ -32,7 +32,7 @@ REAL = ["bec2format.bec2file (InitEccAuthBlock, EccEncryptor, EccDecryptor)", "b
         "ecdsa (keys, ecdh, ellipticcurve, util.randrange)", "pyaes"]
 STUBS = ["RNG: SimRng behind os.urandom shims", "key generation observer (register_PrivateEccKey)",
          "device model: RefP256 + RefAES", "openssl binary (thorough tier sample)"]
-PROBES = ["keystore-decoys", "default-recipient", "selector-nonzero-default", "edge-recipient-scalar", "edge-ephemeral-scalar",
+PROBES = ["shared-encryptor-two-threads", "keystore-decoys", "default-recipient", "selector-nonzero-default", "edge-recipient-scalar", "edge-ephemeral-scalar",
           "randrange-retry", "session-key-trailing-zero", "point-off-curve-rejected", "point-coordinate-ge-p",
           "point-zero", "point-negated-still-on-curve", "openssl-agrees"]
 THOROUGH_ONLY_PROBES = ["openssl-agrees"]
@@ -45,6 +45,13 @@ P = refp256.P
 def gen(st, tier):
     w = st["workload"]
     f = st["faults"]
+    if w.random() < 0.03:
+        # two threads wrap their session keys through ONE shared encryptor object (a shared crypto unit)
+        from sim import conc
+        pre, ch = conc.sched_spec(st["schedule"])
+        return {"conc": True, "sel": w.randrange(4), "recip": prov.scalar_spec(w),
+                "skeys": [rbytes(w, 16).hex(), rbytes(w, 16).hex()], "rng": w.getrandbits(32),
+                "preempt": pre, "choices": ch}
     recip = None
     if w.random() < 0.6:
         recip = prov.scalar_spec(w)
@@ -124,7 +131,60 @@ def _openssl_ecdh(d, point_raw):
         shutil.rmtree(tmp, ignore_errors=True)
 
 
+def _run_conc(case):
+    from sim import conc
+    out = Outcome()
+    bf = env.bec2file
+    sel = case["sel"]
+
+    def make_bodies(s):
+        rngs = [prov.SimRng(case["rng"] * 2 + i) for i in range(2)]
+        env.install_rng(lambda n, site: rngs[s.me().tid](n, site))
+        priv = prov.make_priv(env, case["recip"])
+        shared = bf.EccEncryptor(sel, priv.public_key)
+
+        def body(i):
+            def fn():
+                return bf.InitEccAuthBlock(sel).pack(bytes.fromhex(case["skeys"][i]), [shared])
+            return fn
+        return [body(0), body(1)]
+    try:
+        dry, cc, pre = conc.run_conc(make_bodies, case["preempt"], case["choices"], with_ecdsa=True, first=0)
+    finally:
+        env.restore_registry()
+    npre = sum(1 for d in cc.decisions if d[3] == "preempt")
+    out.fired["preempt"] += npre
+    out.nontrivial = npre > 0
+    out.probes["shared-encryptor-two-threads"] += 1
+    out.ev("conc", tuple(cc.decisions), cc.aborted, [t.result.hex()[:20] if t.result else None for t in cc.threads])
+    narrow = dict(case, preempt=[["abs", p] if isinstance(p, int) else list(p) for p in pre])
+    if any(t.exc is not None for t in dry.threads):
+        out.ev("sequential-raises")
+        return out
+    bspec = {"t": "ecc", "sel": sel, "recip": case["recip"]}
+    pts = []
+    for i, t in enumerate(cc.threads):
+        if cc.aborted or t.exc is not None:
+            out.fail("C09.concurrent", "raises", "thread %d: %s %r" % (i, cc.aborted, t.exc), narrow)
+            continue
+        try:
+            k = prov.device_unwrap(bspec, 3, t.result)
+        except ValueError as e:
+            out.fail("C09.device", "concurrent-unwrap-failed", "thread %d: device model cannot open the block: %s" % (i, e), narrow)
+            continue
+        pts.append(t.result[2:66])
+        if k != bytes.fromhex(case["skeys"][i]):
+            out.fail("C09.device", "concurrent-wrong-key",
+                     "thread %d packed through an encryptor object shared with another thread: the recipient recovers "
+                     "%s, session key is %s (schedule %s)" % (i, k.hex(), case["skeys"][i], cc.decisions), narrow)
+    if len(pts) == 2 and pts[0] == pts[1]:
+        out.fail("C09.ephemeral", "concurrent-same-point", "both threads' blocks carry the same ephemeral point", narrow)
+    return out
+
+
 def run(case):
+    if case.get("conc"):
+        return _run_conc(case)
     out = Outcome()
     env.restore_registry()
     bf = env.bec2file
@@ -272,6 +332,11 @@ def run(case):
 
 
 def shrink(case):
+    if case.get("conc"):
+        pre = case["preempt"]
+        for i in range(len(pre)):
+            yield dict(case, preempt=pre[:i] + pre[i + 1:])
+        return
     if case["damage"]:
         yield dict(case, damage=None)
     if case["eph"] is not None:
